@@ -21,6 +21,7 @@ import (
 	"github.com/nyaruka/goflow/assets"
 	"github.com/nyaruka/goflow/assets/static"
 	"github.com/nyaruka/goflow/envs"
+	"github.com/nyaruka/goflow/excellent/types"
 	"github.com/nyaruka/goflow/flows"
 	"github.com/nyaruka/goflow/flows/engine"
 	"github.com/nyaruka/goflow/flows/resumes"
@@ -61,7 +62,8 @@ type Carried struct {
 	Node  string `json:"node"`
 	Event string `json:"event"`
 	Ref   Ref    `json:"ref"`
-	InDef bool   `json:"in_definition"` // written as a fixed reference in the definition of the node
+	InDef bool   `json:"in_definition"` // written as a fixed reference in the definition of the node, or named by it:
+	How   string `json:"how,omitempty"` // "" by identity | default-topic | literal-name_match | literal-email_match | literal-legacy_var
 }
 
 // LeftWait is the exit through which an accepted resume left the step that was waiting
@@ -415,6 +417,11 @@ func executeWithout(c *Case, without string) (obs *Obs, err error) {
 		collectSprint(c, obs, session, sp)
 	}
 	obs.SessionStatus = string(session.Status())
+	if contextHook != nil {
+		for _, r := range session.Runs() {
+			contextHook(r.RootContext(env0))
+		}
+	}
 
 	// ---- the trace: every step of every run, in order of creation
 	runIdx := map[flows.RunUUID]int{}
@@ -454,7 +461,7 @@ func executeWithout(c *Case, without string) (obs *Obs, err error) {
 					s.Saved = append(s.Saved, [2]string{name, cat})
 				}
 				for _, ref := range eventRefs(typ, m) {
-					if def[ref.Kind+":"+ref.ID] {
+					if _, ok := def[ref.Kind+":"+ref.ID]; ok {
 						s.Touched = append(s.Touched, ref)
 					}
 				}
@@ -513,8 +520,8 @@ func collectSprint(c *Case, obs *Obs, session flows.Session, sp flows.Sprint) {
 		}
 		def := nodeFixedRefs(findNode(c, fi, node))
 		for _, ref := range eventRefs(typ, m) {
-			in := def[ref.Kind+":"+ref.ID]
-			obs.Carried = append(obs.Carried, Carried{Flow: fi, Node: node, Event: typ, Ref: ref, InDef: in})
+			how, in := def[ref.Kind+":"+ref.ID]
+			obs.Carried = append(obs.Carried, Carried{Flow: fi, Node: node, Event: typ, Ref: ref, InDef: in, How: how})
 			if in {
 				obs.NTouched++
 				obs.TouchKinds[ref.Kind] = true
@@ -637,25 +644,79 @@ func eventRefs(typ string, m map[string]any) []Ref {
 	return out
 }
 
-// the fixed references written in the definition of a node: reference members of its actions, and the group of
-// its router's has_group cases (also in the stored translations of the case's arguments)
-func nodeFixedRefs(n *Node) map[string]bool {
-	out := map[string]bool{}
+// the fixed assets the definition of a node names: reference members of its actions with an identity and the group
+// of its router's has_group cases ("" = by identity); and — fixed just the same, since nothing about them is
+// computed — the asset an expression-free name_match / email_match / legacy_vars value names and the topic
+// "General" that an open_ticket without topic falls back to (documented in flows/actions/open_ticket.go)
+func nodeFixedRefs(n *Node) map[string]string {
+	out := map[string]string{}
 	if n == nil {
 		return out
 	}
-	add := func(r Ref) {
-		if r.ID != "" {
-			out[r.Kind+":"+r.ID] = true
+	put := func(kind, id, how string) {
+		k := kind + ":" + id
+		if old, ok := out[k]; !ok || (old != "" && how == "") {
+			out[k] = how
+		}
+	}
+	byName := func(kind, name string) (string, bool) {
+		for _, a := range universe() {
+			if a.Kind == kind && strings.EqualFold(a.Name, name) {
+				return a.ID, true
+			}
+		}
+		return "", false
+	}
+	named := func(r Ref) {
+		if r.Match == "" || !isLiteral(r.Match) {
+			return
+		}
+		switch r.Kind {
+		case "group", "label":
+			if id, ok := byName(r.Kind, r.Match); ok {
+				put(r.Kind, id, "literal-name_match")
+			}
+		case "user":
+			for _, u := range userDefs {
+				if u.Email == r.Match {
+					put("user", u.Email, "literal-email_match")
+				}
+			}
 		}
 	}
 	for _, a := range n.Actions {
+		hasTopic := false
 		for _, it := range a.Items {
 			if it.Ref != nil {
-				add(*it.Ref)
+				if it.Ref.ID != "" {
+					put(it.Ref.Kind, it.Ref.ID, "")
+				} else {
+					named(*it.Ref)
+				}
+				if it.Ref.Kind == "topic" {
+					hasTopic = true
+				}
 			}
 			for _, r := range it.Refs {
-				add(r)
+				if r.ID != "" {
+					put(r.Kind, r.ID, "")
+				} else {
+					named(r)
+				}
+			}
+			if it.Tpl != nil && it.Key == "legacy_vars" {
+				for _, v := range it.Tpl.Vals {
+					if isLiteral(v) {
+						if id, ok := byName("group", strings.TrimSpace(v)); ok {
+							put("group", id, "literal-legacy_var")
+						}
+					}
+				}
+			}
+		}
+		if a.Type == "open_ticket" && !hasTopic {
+			if id, ok := byName("topic", "General"); ok {
+				put("topic", id, "default-topic")
 			}
 		}
 	}
@@ -663,11 +724,11 @@ func nodeFixedRefs(n *Node) map[string]bool {
 		for _, cs := range n.Router.Cases {
 			if cs.Type == "has_group" {
 				if len(cs.Args.Vals) > 0 {
-					add(Ref{Kind: "group", ID: cs.Args.Vals[0]})
+					put("group", cs.Args.Vals[0], "")
 				}
 				for _, tr := range cs.Args.Trans {
 					if len(tr) > 0 && !(len(tr) == 1 && tr[0] == "") {
-						add(Ref{Kind: "group", ID: tr[0]})
+						put("group", tr[0], "")
 					}
 				}
 			}
@@ -727,6 +788,10 @@ func saverOf(n *Node, name, cat string) string {
 	sort.Strings(types)
 	return "under-a-name-not-configured-on-node-with:" + strings.Join(types, "+")
 }
+
+// hooks of the home discovery (homes.go)
+var contextHook func(map[string]types.XValue)
+var globalOverride map[string]string
 
 var volatileKeys = map[string]bool{"created_on": true, "step_uuid": true, "modified_on": true, "expires_on": true, "sent_on": true, "elapsed_ms": true}
 
